@@ -129,7 +129,9 @@ impl UCICommand {
                 "wtime" => {
                     idx += 1;
                     limits = limits.white_time(Some(
-                        args[idx]
+                        args
+                            .get(idx)
+                            .ok_or("Missing wtime value")?
                             .parse()
                             .map_err(|e| format!("Failed to parse wtime value: {e}"))?,
                     ));
@@ -137,7 +139,9 @@ impl UCICommand {
                 "btime" => {
                     idx += 1;
                     limits = limits.black_time(Some(
-                        args[idx]
+                        args
+                            .get(idx)
+                            .ok_or("Missing btime value")?
                             .parse()
                             .map_err(|e| format!("Failed to parse btime value: {e}"))?,
                     ));
@@ -145,7 +149,9 @@ impl UCICommand {
                 "winc" => {
                     idx += 1;
                     limits = limits.white_increment(Some(
-                        args[idx]
+                        args
+                            .get(idx)
+                            .ok_or("Missing winc value")?
                             .parse()
                             .map_err(|e| format!("Failed to parse winc value: {e}"))?,
                     ));
@@ -153,7 +159,9 @@ impl UCICommand {
                 "binc" => {
                     idx += 1;
                     limits = limits.black_increment(Some(
-                        args[idx]
+                        args
+                            .get(idx)
+                            .ok_or("Missing binc value")?
                             .parse()
                             .map_err(|e| format!("Failed to parse binc value: {e}"))?,
                     ));
@@ -162,7 +170,9 @@ impl UCICommand {
                 "depth" => {
                     idx += 1;
                     limits = limits.depth(Some(
-                        args[idx]
+                        args
+                            .get(idx)
+                            .ok_or("Missing depth value")?
                             .parse()
                             .map_err(|e| format!("Failed to parse depth value: {e}"))?,
                     ));
@@ -170,7 +180,9 @@ impl UCICommand {
                 "nodes" => {
                     idx += 1;
                     limits = limits.nodes(Some(
-                        args[idx]
+                        args
+                            .get(idx)
+                            .ok_or("Missing nodes value")?
                             .parse()
                             .map_err(|e| format!("Failed to parse nodes value: {e}"))?,
                     ));
@@ -179,7 +191,9 @@ impl UCICommand {
                 "movetime" => {
                     idx += 1;
                     limits = limits.movetime(Some(
-                        args[idx]
+                        args
+                            .get(idx)
+                            .ok_or("Missing movetime value")?
                             .parse()
                             .map_err(|e| format!("Failed to parse movetime value: {e}"))?,
                     ));
